@@ -177,11 +177,9 @@ func (r *runner) evaluate() {
 				r.fail(hx.Failf("C16/merge-lost/conflict-although-retries-left",
 					"incoming merge %s was dropped with a transaction conflict although MaxTxnRetries (%d) exceeds the number of commits of the case: %s\n%s",
 					short(key), r.tgt.DB.MaxTxnRetries(), f, r.history()))
-			} else if strings.Contains(f, "corrupted index") && r.indexedAndOverlapped(key, doc) {
-				// syncIndexedDoc reads the "old" document in a fresh transaction, not in the snapshot
-				// of the merge: a local write that commits in between makes the index update look for
-				// an entry the merge transaction does not have; the error ends the merge without retry
-				r.fail(hx.Failf(sigMergeCorruptedIndex, "incoming merge %s was dropped: %s; an index existed (or was being created) and a local write of the same document overlapped the merge\n%s", short(key), f, r.history()))
+			} else if strings.Contains(f, "corrupted index") {
+				sig, why := r.classifyCorruptedIndexMerge(key, doc, f)
+				r.fail(hx.Failf(sig, "incoming merge %s was dropped: %s; %s\n%s", short(key), f, why, r.history()))
 			} else {
 				r.fail(hx.Failf("C16/merge-lost/"+errClass(f), "incoming merge %s concurrent with local calls was dropped: %s\n%s", short(key), f, r.history()))
 			}
@@ -432,6 +430,45 @@ func (r *runner) indexedAndOverlapped(key, doc string) bool {
 		}
 	}
 	return ix && wr
+}
+
+var indexNameRe = regexp.MustCompile(`Name: (\w+)`)
+
+// classifyCorruptedIndexMerge decides which listed defect, if any, fully explains a merge that was
+// dropped with "corrupted index".
+func (r *runner) classifyCorruptedIndexMerge(key, doc, errText string) (sig, why string) {
+	name := ""
+	if m := indexNameRe.FindStringSubmatch(errText); m != nil {
+		name = m[1]
+	}
+	// Was the index already inconsistent for this document before the merge was published?
+	// (a local call on the document had failed with the same error)
+	prior := false
+	for _, cl := range r.calls {
+		if cl.Doc == doc && strings.Contains(cl.Err, "corrupted index") && cl.End < r.merges.firstPub[key] {
+			prior = true
+		}
+	}
+	if !prior && r.indexedAndOverlapped(key, doc) {
+		// syncIndexedDoc reads the "old" document in a fresh transaction, not in the snapshot of the
+		// merge: a local write that commits in between makes the index update look for an entry the
+		// merge transaction does not have; the error ends the merge without retry
+		return sigMergeCorruptedIndex, "an index existed (or was being created) and a local write of the same document overlapped the merge"
+	}
+	// Otherwise the merge is a victim of an index that earlier calls left inconsistent: attribute it
+	// to the listed cause when that cause's own model condition holds for this document and index.
+	switch {
+	case name != "" && r.explainedByCreateIndexOverlap(name, []string{doc}):
+		return sigIndexWriteSkew, "the index was created while a write of this document was in flight, so its entry was missing or stale before the merge arrived"
+	case r.explainedByStaleDocumentUpdate(doc):
+		return sigIndexStaleDoc, "a collection-API Get+Update of this document overlapped another acknowledged write of it, leaving a stale index entry before the merge arrived"
+	case r.indexOpsOnDifferentIndexesOverlapped():
+		return sigIndexLostUpdate, "CreateIndex/DropIndex calls on different indexes overlapped, so the index description and its entries disagree"
+	}
+	if prior {
+		return "C16/merge-lost/corrupted-index/index-already-inconsistent-unexplained", "the index was already inconsistent for this document before the merge was published, and no listed cause explains it"
+	}
+	return "C16/merge-lost/corrupted-index/unexplained", "no local write overlapped the merge and no listed cause explains the inconsistent index"
 }
 
 func keysInt(m map[int]bool) []int {
